@@ -2,6 +2,16 @@
 # tools/run_all.sh [tier]   every check once on /repo as it is; prints one line per check
 cd "$(dirname "$0")/.." || exit 2
 tier=${1:-quick}
+# the model-sync baseline must describe the committed /repo: a mismatch on a clean /repo means fingerprints.json is stale
+if [ -z "$(git -C /repo status --porcelain 2>/dev/null)" ]; then
+  python3 - <<'PY'
+import sys; sys.path.insert(0, "harness")
+import fingerprint
+ch = fingerprint.changed("/repo", "fingerprints.json")
+if ch:
+    print("WARNING: fingerprints.json is stale for the clean /repo (run tools/gen_fingerprints.py):", ch)
+PY
+fi
 for i in 01 02 03 04 05 06 07 08 09 10 11 12 13 14 15 16 17 18 19 20; do
   ./check C$i --tier $tier 2>&1 | grep -E "^\[C|VIOLATION|KNOWN-FINDING" 
 done
